@@ -90,7 +90,16 @@ void huge64_check(RunResult &res, bool builder, uint64_t seed)
 		munmap(m, cap);
 		return;
 	}
-	// the real block_builder above the 32-bit threshold
+	// the real block_builder above the 32-bit threshold; it needs ~14 GiB resident for a few seconds (the builder's
+	// buffer doubles while a 2 GiB value is appended), so it is left unjudged on a machine without that much to spare
+	{
+		FILE *mi = fopen("/proc/meminfo", "r");
+		unsigned long long avail_kb = 0;
+		char line[256];
+		while (mi && fgets(line, sizeof line, mi)) if (sscanf(line, "MemAvailable: %llu kB", &avail_kb) == 1) break;
+		if (mi) fclose(mi);
+		if (avail_kb < 24ull * 1024 * 1024) { res.unjudged["huge64-builder-skipped-less-than-24GiB-available"]++; return; }
+	}
 	uint8_t *val = (uint8_t *)mmap(nullptr, (size_t)big, PROT_READ, MAP_PRIVATE | MAP_ANONYMOUS | MAP_NORESERVE, -1, 0);
 	if (val == MAP_FAILED) { res.unjudged["huge64-builder-mapping-refused"]++; return; }
 	struct block_builder *bb = block_builder_init(2);
